@@ -89,8 +89,16 @@ def r1(model, rep):
                 for t, v in pairs:
                     if isinstance(v, ast.Subscript) and is_name_(v.slice, perm) and ast.unparse(t) == ast.unparse(v.value):
                         taken[ast.unparse(t)] = True
+        wrong = [x for x in init.body if isinstance(x, ast.Assign) and x.value in srt and isinstance(x.targets[0], ast.Name) and not x.value.keywords
+                 and x.value.args and ast.unparse(x.value.args[0]) != "self._x"]
         if perm and taken.get("self._x") and taken.get("self._fx"):
             ok = True
+        elif wrong and not perm:
+            rep.violation("R1", "components._Interp1d.__init__", "%s:%d" % (rel, wrong[0].lineno),
+                          "axis and values are put into the order of `%s`, not into rising order of the axis magnitudes: np.interp then looks the values up on an axis that is not rising" % ast.unparse(wrong[0].value),
+                          "interp1d permutation not from the axis")
+            rep.instance("R1", "components._Interp1d abscissa rises by magnitude", "%s:%d" % (rel, init.lineno), False)
+            return
         else:
             raise AnalysisError("_Interp1d.__init__ sorts something, but not axis and values by one permutation of the axis magnitudes: not readable")
     elif not ok and mentions_sort:
